@@ -18,7 +18,7 @@ EXPLANATION = (
     "the sanitiser's pattern is compiled from covers every code point XML 1.0 forbids (C0 controls except tab/LF/CR, "
     "surrogates, U+FFFE/U+FFFF) and none of a sample of ordinary characters; the escape function applies that pattern.")
 NOT_DECIDED = "ElementTree's own escaping of attribute and text content; file names and directories; the bytes of the report"
-TECHNIQUE = "static analysis: abstract exploration of the JUnit reporter with XML element tokens (counter/entry conservation, nullness), taint analysis from model texts to XML sinks through the sanitisers, structural rules on the CDATA serializer path"
+TECHNIQUE = "static analysis: abstract exploration of the JUnit reporter with XML element tokens (counter/entry conservation, nullness), taint analysis from model texts to XML sinks through the sanitisers, structural rules on the CDATA serializer path; static constant propagation of the string-level glue (the source interpreted on enumerated literal inputs, stdlib calls folded) against oracles written in the rule"
 
 
 def run(chk, ix, tier):
